@@ -84,11 +84,12 @@ def stepDial (op impl : String) : StepOut := Id.run do
             | some p =>
               let s := ofParrot p
               toks := [s!"scid={s.scidLen}", s!"dcid={s.dcidLen}", s!"qtp={if s.hasQTP then 1 else 0}",
-                       s!"isc={fmtIsc s.iscid}", "supp15=0", "ks=0", s!"min={p.2.2.2.1}", "tok=0"]
+                       s!"isc={fmtIsc s.iscid}", "supp15=0", "ks=0", s!"min={p.2.2.2.1}", "tok=0",
+                       s!"mu={(parrotStreams p).1}", s!"mb={(parrotStreams p).2}"]
             | none => toks := ["unknown-parrot"]
           | none => pure ()
         acc := { acc with spec := specOf toks, s0 := toks, out := acc.out ++ [{ sec with toks := toks }], nS := 1,
-                          tags := acc.tags ++ [if toks == ["nil"] then "dial:nospec" else "dial:spec"] }
+                          tags := acc.tags ++ [if toks.head? == some "nil" then "dial:nospec" else "dial:spec"] }
       else
         let isLast := acc.nS + 1 == totalS
         if fresh && !isLast then
@@ -97,7 +98,7 @@ def stepDial (op impl : String) : StepOut := Id.run do
         else
           let toks := match acc.spec with
             | some s => renderSpecToks acc.s0 s
-            | none => ["nil"]
+            | none => acc.s0
           let changed := toks ≠ acc.s0
           acc := { acc with out := acc.out ++ [{ sec with toks := toks }], nS := acc.nS + 1,
                             tags := acc.tags ++ (if changed then ["dial:spec_written"] else []) }
@@ -138,7 +139,10 @@ def stepDial (op impl : String) : StepOut := Id.run do
           tags := tags ++ [tg]
           if r.1 ≠ s then tags := tags ++ ["dial:writeback"]
         spec' := some (specAfter sh wb s envs)
-      let t' := setKV (setKV (setKV t "adv" predAdv) "own" predOwn) "out" predOut
+      -- after the echo the server opens every stream the client advertised room for; all of them arrive
+      let mu := (getKV acc.s0 "mu").getD "0"; let mb := (getKV acc.s0 "mb").getD "0"
+      let predFan := s!"u{mu}/{mu},b{mb}/{mb}"
+      let t' := setKV (setKV (setKV (setKV t "adv" predAdv) "own" predOwn) "out" predOut) "fan" predFan
       -- monitors on the implementation's behaviour
       let mut fails : List Fail := []
       if implOut == "hang" then
@@ -157,6 +161,12 @@ def stepDial (op impl : String) : StepOut := Id.run do
         let up := (getKV t "up").getD ""; let down := (getKV t "down").getD ""
         if !(dataOK up && dataOK down) then
           fails := fails ++ [("data_both_ways", "-", s!"dial {i}: up={up} down={down}")]
+      match getKV t "fan" with
+      | some f =>
+        if f ≠ predFan then
+          fails := fails ++ [("uses_advertised_streams", "-", s!"dial {i}: the server opened the {mu} unidirectional and {mb} bidirectional streams the client advertised, concurrently; received {f}")]
+        else tags := tags ++ ["dial:fan_ok"]
+      | none => pure ()
       if wf && base ≠ "none" then
         if 0 ≤ minsz && minsz < 1200 then
           fails := fails ++ [("flight_legal", "-", s!"dial {i}: an Initial datagram of {minsz} bytes")]
@@ -169,6 +179,8 @@ def stepDial (op impl : String) : StepOut := Id.run do
           if s.dcidLen ≠ 0 && !draws.isEmpty && dcidlen ≠ s.dcidLen then
             fails := fails ++ [("flight_legal", "-", s!"dial {i}: destination connection ID of {dcidlen} bytes, spec says {s.dcidLen}")]
         | none => pure ()
+      if (derTokens der).any (fun x => x.startsWith "fb:flight" || x.startsWith "fb:rflight") then
+        tags := tags ++ ["dial:planned_flight"] ++ (if faults.contains 'c' then ["dial:planned_flight_lost"] else [])
       acc := { acc with spec := spec', out := acc.out ++ [{ sec with toks := t' }], tags := acc.tags ++ tags,
                         fails := acc.fails ++ fails }
     else
